@@ -6,6 +6,8 @@ from fractions import Fraction
 
 import numpy as np
 
+from .. import shapes as S
+
 from ..core import fmt_list, frac, err_kind, floats
 
 ID = "C16"
@@ -49,10 +51,10 @@ def request(c):
 def run_impl(c):
     from traffic_weaver import Weaver
     from traffic_weaver.process import spline_smooth
-    x = np.array(floats([Fraction(v) for v in c["x"]]))
-    y = np.array(floats([Fraction(v) for v in c["y"]]))
+    x = S.arr(floats([Fraction(v) for v in c["x"]]))
+    y = S.arr(floats([Fraction(v) for v in c["y"]]))
     if c.get("int_y"):
-        y = np.array([int(Fraction(v)) for v in c["y"]])
+        y = S.arr([int(Fraction(v)) for v in c["y"]])
     out = {}
     with warnings.catch_warnings(record=True) as wl:
         warnings.simplefilter("always")
@@ -93,8 +95,8 @@ def compare(c, io, mo):
         return f"impl raised {io['err']}"
     if io["warned"]:
         return None
-    x = np.array(floats([Fraction(v) for v in c["x"]]))
-    y = np.array(floats([Fraction(v) for v in c["y"]]))
+    x = S.arr(floats([Fraction(v) for v in c["x"]]))
+    y = S.arr(floats([Fraction(v) for v in c["y"]]))
     s_model = float(Fraction(mo[0][3:]))
     s_eff = s_model if c["s"] is None else c["s"]
     want = scipy_direct(x, y, s_eff)
